@@ -195,7 +195,68 @@ def install_events():
     wrap(Session, "setup", ss_pre, ss_post)
 
 
-INSTALLERS = {"market_price": install_market_price, "events": install_events}
+# ----------------------------------------------------------------------------- Market._execution (C01, C02, C03, C04, C10)
+def install_matching():
+    def pre(m):
+        buys = sorted(m.buy_order_book.priority_queue, key=rank_key); sells = sorted(m.sell_order_book.priority_queue, key=rank_key)
+        lg = m.logger
+        return dict(buys=buys, sells=sells, vol={id(o): o.volume for o in buys + sells}, nrec=None if lg is None else len(lg.pending_logs), running=m._is_running,
+                    both_mkt=bool(buys and sells and buys[0].price is None and sells[0].price is None))
+
+    def post(m, c, logs):
+        F = "Market._execution"
+        buys, sells, pre_vol = c["buys"], c["sells"], c["vol"]
+        byid = {o.order_id: o for o in buys + sells}
+        if logs:
+            if len({l.price for l in logs}) != 1:
+                raise ContractViolation(F, "E2 all fills of the round carry one common price", [l.price for l in logs])
+            p = logs[0].price
+            for l in logs:
+                b, s = byid.get(l.buy_order_id), byid.get(l.sell_order_id)
+                if b is None or s is None or not b.is_buy or s.is_buy or l.volume < 1 or l.market_id != m.market_id:
+                    raise ContractViolation(F, "E1 every fill pairs a buy order of the entry buy book with a sell order of the entry sell book, with positive volume")
+                if (b.price is not None and p > b.price) or (s.price is not None and p < s.price):
+                    raise ContractViolation(F, "E3 the price is no higher than the buyer's limit and no lower than the seller's limit", (p, b.price, s.price))
+            lb, ls = byid[logs[-1].buy_order_id], byid[logs[-1].sell_order_id]
+            if not (lb.price is None and ls.price is None):
+                exp = ls.price if lb.price is None else (lb.price if ls.price is None else (lb.price if (lb.placed_at, lb.order_id) < (ls.placed_at, ls.order_id) else ls.price))
+                if p != exp:
+                    raise ContractViolation(F, "E4 the common price is the limit price of the earlier-accepted order of the last matched pair", (p, exp))
+        fills = {}
+        for l in logs:
+            fills[l.buy_order_id] = fills.get(l.buy_order_id, 0) + l.volume; fills[l.sell_order_id] = fills.get(l.sell_order_id, 0) + l.volume
+        for side in (buys, sells):
+            seen_unfilled = False
+            for o in side:
+                f = pre_vol[id(o)] - o.volume
+                if f != fills.get(o.order_id, 0) or o.volume < 0:
+                    raise ContractViolation(F, "E5 accounting: final volume = entry volume - fills >= 0", (o.order_id, pre_vol[id(o)], o.volume, fills.get(o.order_id, 0)))
+                if f > 0 and seen_unfilled:
+                    raise ContractViolation(F, "E6 price-time priority: a filled order has every higher-priority order of its side fully filled",
+                                            [(x.order_id, x.price, pre_vol[id(x)], x.volume) for x in side])
+                if o.volume > 0:
+                    seen_unfilled = True
+        bb, bs = best(m.buy_order_book), best(m.sell_order_book)
+        if bb is not None and bs is not None and (bb.price is not None or bs.price is not None):
+            if not (bb.price is not None and bs.price is not None and bb.price < bs.price):
+                raise ContractViolation(F, "E7 the book is cleared: both best orders are limit orders and best bid < best ask", (bb.price, bs.price))
+        for book, side in ((m.buy_order_book, buys), (m.sell_order_book, sells)):
+            if sorted(id(o) for o in book.priority_queue) != sorted(id(o) for o in side if o.volume > 0):
+                raise ContractViolation(F, "the books hold exactly the entry orders with volume left")
+            if book.priority_queue and book.priority_queue[0] is not best(book):
+                raise ContractViolation(F, "B3 top is minimal")
+        if m.logger is not None and c["nrec"] is not None:
+            new = m.logger.pending_logs[c["nrec"]:]
+            if [id(x) for x in new] != [id(l) for l in logs]:
+                raise ContractViolation(F, "C10 the logger receives exactly one record per fill of the round, in order", dict(fills=len(logs), records=len(new)))
+
+    def on_raise(m, c, e):
+        if c["running"]:
+            raise ContractViolation("Market._execution", "no-raise: a matching round on a running market terminates without raising", dict(exc=repr(e), both_market_start=c["both_mkt"]))
+    wrap(Market, "_execution", pre, post, on_raise)
+
+
+INSTALLERS = {"market_price": install_market_price, "events": install_events, "matching": install_matching}
 
 
 def install(names):
